@@ -20,21 +20,29 @@ def deriv_problem(f, r, bounds=()):
         return None
     room = min([abs(r - b) for b in bounds], default=None)
     out = []
-    try:
-        if hasattr(f, "deriv"):
-            got = f.deriv(r)
-            ref, err = ridders(f, r, room=room)
-            ORACLE["reference_converged" if err <= 1e-7 * abs(ref) + 1e-11 else "reference_not_converged"] += 1
-            if err <= 1e-7 * abs(ref) + 1e-11 and abs(got - ref) > 2e-6 * max(abs(ref), abs(got)) + 10 * err + 1e-9:
-                out.append("deriv(%r) = %r but dE/dr = %r (+-%.1e)" % (r, got, ref, err))
-        if hasattr(f, "deriv2") and hasattr(f, "deriv"):
-            got = f.deriv2(r)
-            ref, err = ridders(f.deriv, r, room=room)
-            ORACLE["reference_converged" if err <= 1e-7 * abs(ref) + 1e-11 else "reference_not_converged"] += 1
-            if err <= 1e-7 * abs(ref) + 1e-11 and abs(got - ref) > 2e-6 * max(abs(ref), abs(got)) + 10 * err + 1e-9:
-                out.append("deriv2(%r) = %r but d(deriv)/dr = %r (+-%.1e)" % (r, got, ref, err))
-    except (OverflowError, ZeroDivisionError, ValueError):
-        return None
+
+    def offered(which, fun, base):
+        """compare the offered derivative `fun` with the Ridders reference of `base`; an offered derivative that RAISES at a point where the reference exists
+        (the function below it evaluates on a whole neighbourhood and its difference quotients converge) is a failure, not a reason to skip the point"""
+        try:
+            ref, err = ridders(base, r, room=room)
+        except (OverflowError, ZeroDivisionError, ValueError):
+            return
+        conv = err <= 1e-7 * abs(ref) + 1e-11
+        ORACLE["reference_converged" if conv else "reference_not_converged"] += 1
+        if not conv or not (abs(ref) < 1e250):
+            return
+        try:
+            got = fun(r)
+        except (OverflowError, ZeroDivisionError, ValueError) as e:
+            out.append("%s(%r) raises %s (%s) although the function is differentiable there: the slope is %r (+-%.1e)" % (which, r, type(e).__name__, e, ref, err))
+            return
+        if abs(got - ref) > 2e-6 * max(abs(ref), abs(got)) + 10 * err + 1e-9:
+            out.append("%s(%r) = %r but %s = %r (+-%.1e)" % (which, r, got, "dE/dr" if which == "deriv" else "d(deriv)/dr", ref, err))
+    if hasattr(f, "deriv"):
+        offered("deriv", f.deriv, f)
+    if hasattr(f, "deriv2") and hasattr(f, "deriv"):
+        offered("deriv2", f.deriv2, f.deriv)
     return "; ".join(out) if out else None
 
 
@@ -330,6 +338,7 @@ def check(run):
                     if nbad <= 3:
                         run.fail("deriv-mismatch", "%s: %s" % (route, p), dict(expression=str(desc), potable_definition=txt, r=r, route=route))
                     break
+    regular_points(run)
     # ---- built-in forms directly, dense -------------------------------------------------------------------------------------------
     for n in formlib.form_names():
         fobj = getattr(pfo, n)
@@ -342,6 +351,39 @@ def check(run):
             if p and bad == 0:
                 bad += 1
                 run.fail("deriv-mismatch", "as.%s %s: %s" % (n, ps, p), dict(form=n, params=ps, r=r))
+
+
+def regular_points(run):
+    """(1) r = 0 for the forms that are regular there (the property's quantifier starts at 0 for them; GULP / setfl / Excel tables have an r = 0 row): value, deriv and
+    deriv2 must exist and be the derivatives; (2) powers with a constant integer exponent over a base that changes sign (the modifier's own docstring example
+    `pow(as.buck 1000 0.2 32, as.constant 2)` is negative beyond r ~ 2.4): a**n is differentiable there."""
+    rng = run.rng
+    cases = []
+    for _ in range(run.n(6, 60)):
+        cases.append(("as.bornmayer", pfo.bornmayer(rnd(rng, 50, 5000, 1), rnd(rng, 0.1, 0.6)), 0.0))
+        cases.append(("as.morse", pfo.morse(rnd(rng, 0.5, 3.0, 2), rnd(rng, 0.5, 4.0, 2), rnd(rng, 0.1, 8, 2)), 0.0))
+        cases.append(("as.exp_spline", pfo.exp_spline(*DOMAIN["exp_spline"](rng)), 0.0))
+        for n in (0.0, 1.0, 2.0, 3.0):
+            cases.append(("as.exponential A %g" % n, pfo.exponential(rnd(rng, -10, 10), n), 0.0))
+        A, rho, C = rnd(rng, 500, 3000, 1), rnd(rng, 0.15, 0.3, 3), rnd(rng, 10, 60, 1)
+        for n in (2.0, 3.0, 4.0):
+            f = ap.pow(pfo.buck(A, rho, C), pfo.constant(n))
+            r = rnd(rng, 3.0, 8.0, 3)
+            if pfo.buck(A, rho, C)(r) < 0:
+                cases.append(("pow(as.buck %r %r %r, as.constant %g) where the base is negative" % (A, rho, C, n), f, r))
+    nb = 0
+    for what, f, r in cases:
+        run.case(key=("regular-point", what, r), kind="oracle/regular-point")
+        try:
+            f(r)
+        except (OverflowError, ZeroDivisionError, ValueError) as e:
+            p = "the value itself raises %s (%s) at r = %r, where the form is regular" % (type(e).__name__, e, r)
+        else:
+            p = deriv_problem(f, r)
+        if p:
+            nb += 1
+            if nb <= 3:
+                run.fail("deriv-mismatch", "%s: %s" % (what, p), dict(form=what, r=r))
 
 
 def replay(run, payload):
